@@ -95,6 +95,21 @@ theorem c10_boolean_reading (env : Env) (hwf : WF env = true) (s : Spec) (t : V)
       exact ⟨e, og, by rw [h1], by rw [h2], hcl⟩
   · rw [h2] at hnf; simp [C09.isFault] at hnf
 
+/-- **"… returning the target"**: an M comparison, `M`, `M(T…)`, Not, a type atom, a literal, a
+    callable, a Regex — and And (the last result) / Or (the first passing child's) / Match over
+    such, without `default=` — pass with the target itself: the model's result is the target
+    term, not merely a value equal to it.  (For these specs the harness also observes
+    `result is target` on the implementation.) -/
+theorem c10_returns_target (env : Env) (hwf : WF env = true) (s : Spec) (t r : V)
+    (hc : ctorErr s = none) (hs : C09.selfP s = true) (hw : C09.wfV t = true)
+    (h : (eval env s t).1 = .ok r) : r = t := by
+  have hr := c10_refines env hwf s t hc
+  rcases hr.cases with ⟨a, l, h1, h2⟩ | ⟨e, og, l, h1, h2, _⟩ | ⟨e, l, h1, h2, _⟩
+  · rw [h1] at h; injection h with h; subst h
+    exact C09.pure_den env.cls s t a (C09.selfP_pure s hs) hw (by rw [h2])
+  · rw [h1] at h; cases h
+  · rw [h1] at h; cases h
+
 /-! ### M -/
 
 /-- `M <op> c` passes exactly when Python's `target <op> c` is true, and returns the target;
